@@ -193,11 +193,26 @@ PROPS = {
         "technique": "exhaustive state x input enumeration of the CRC step functions plus complete small-scope string enumeration against a bitwise reference model",
         "assumptions": ["reference = bit-at-a-time polynomial division written in the harness (0x1021 MSB-first init 0; 0xEDB88320 LSB-first init ~0, final inversion)"],
     },
+    "C20": {
+        "bin": "px_gfx", "budget_ms": 60000, "case_wall_ms": 20000, "judge_budget": True, "mem_cap_mb": 2048, "wall_cap": {"quick": 300, "thorough": 3000},
+        "rule": "RIPscrip: every command of the level-0 / level-1 / level-9 tables (+ unknown commands) x parameter strings of every length 0..=24 over {0,1,Z}: all strings up to length 5 (thorough 8) and, beyond, the three constant strings with <=1 (thorough 2) positions changed, "
+                "in the initial state; the deviation-bounded part in 7 further start contexts (small / inverted viewport, xor + user line + user fill pattern, saved image, vertical font + text window, changed palette, button style); 6 terminators; text commands x 25 text tails "
+                "(text variables, button label separators, continuation lines, icon file names) x numeric prefix lengths 0..=12; all ordered command pairs x 9 digit fills x 8 contexts. "
+                "IGS: every command letter x 0..=12 parameters over a 24-value menu (0..9, 15, 16, 99, 199, 200, 319, 320, 639, 640, 9998, 99999, -1, -50, empty): 4 constant vectors with <=1 (thorough 2 for <=6 parameters) positions changed, in 6 start contexts; "
+                "loop shapes (from/to/step over {0,3,99999}, 3 separators, 5 parameter templates, 4 counts, 4 looped commands), chains of every command with 8 followers, write-text, every extended sub command 0..=12 x 0..=8 parameters, pauses and loop delays; "
+                "every byte after 8 lead-ins. per stream: catch_unwind per character, CPU <= 0.5 s, wall <= 1.5 s, canvas read back and checked for width x height x 4 bytes; non-trivial = every batch",
+        "level_text": "every command of both command tables is executed on the real parsers with every parameter string of the deviation-bounded scope in every start context; nothing is sampled (the 'randomly beyond' part of the quantifier is outside this technique and not claimed)",
+        "level_note": "icon / file commands see a harness-owned directory with 4 fixture files (valid, truncated, oversized header, wide); pending IGS loop steps are polled for at most 64 steps",
+        "technique": "stateless depth-bounded exploration of the implementation over complete command tables with deviation-bounded parameter strings, start contexts, and panic / CPU / wall / canvas-shape oracles",
+        "assumptions": ["a stream that needs more than 0.5 s CPU or blocks for more than 1.5 s on a 640x350 / 640x400 canvas counts as unbounded", "random streams beyond the enumerated scope are not explored"],
+    },
 }
 
 HOOK_COMMITS = ["81babd1"]
 
 ENGINES = [
+    {"name": "px_gfx", "path": "harness/src/bin/px_gfx.rs", "serves_properties": ["C20"],
+     "kind_free_text": "command-table explorer for the RIPscrip and IGS emulations (deviation-bounded parameter strings x start contexts; panic, CPU, stall and canvas-shape oracles)"},
     {"name": "px_fonts", "path": "harness/src/bin/px_fonts.rs", "serves_properties": ["C17"],
      "kind_free_text": "font enumerator: bitmap fonts through PSF2 / raw / DCS / XBin / ADF / IDF / IcyDraw, TheDraw fonts and bundles through TDF bytes"},
     {"name": "px_sauce", "path": "harness/src/bin/px_sauce.rs", "serves_properties": ["C11"],
